@@ -109,8 +109,8 @@ pub fn c27_delegate_is_from_value() {
 
 /// parents() are the from_value results of the parent fields in order, malformed ones skipped
 //# props: C27
-//# tier: thorough
-//# kind: bounded(two parent fields of 33 and 8 symbolic bytes)
+//# tier: manual
+//# kind: bounded(two parent fields of 33 and 8 symbolic bytes) - NOT RUN by any registered command: CBMC did not finish it in 21 minutes (10 GB and growing; Vec<Vec<u8>> of symbolic buffers)
 //# fns: inscriptions::inscription::Inscription::parents
 //# timeout: 900
 #[cfg_attr(kani, kani::proof)]
